@@ -1,9 +1,10 @@
 #!/bin/sh
 # usage: tools/run_seeded.sh [ids...]  — runs each seeded change against the check of the property it breaks (serially)
-cd /verif
+HERE=$(cd "$(dirname "$0")/.." && pwd)
+cd "$HERE"
 IDS="$@"; [ -z "$IDS" ] && IDS=$(ls seeded)
 for ID in $IDS; do
   P=$(python3 -c "import json;print(json.load(open('seeded/$ID/meta.json'))['breaks_property'])")
   echo "#### $ID ($P)"
-  tools/try_mutant.sh /verif/seeded/$ID/patch.diff $P 2>&1 | cut -c1-330
+  tools/try_mutant.sh "$HERE/seeded/$ID/patch.diff" $P 2>&1 | cut -c1-330
 done
